@@ -334,8 +334,16 @@ def check_case(target, module, cls, case, clauses=None):
     owner, fn = resolve_target(target)
     selfobj = case.get("self")
     kwargs = dict(case.get("kwargs", {}))
-    # contract parameters denote the values at entry: clauses see a deep copy taken before the call
-    env = _copy.deepcopy(kwargs)
+    # contract parameters denote the values at entry: plain data (dict/list/set/tuple) is deep-copied before the
+    # call; objects are passed by reference, so clauses about them (and `old(...)`) see their real post-state
+    def _entry_copy(v):
+        if isinstance(v, (dict, list, set, tuple)):
+            try:
+                return _copy.deepcopy(v)
+            except Exception:   # noqa: BLE001  (containers of external objects: shallow copy)
+                return _copy.copy(v)
+        return v
+    env = {k: _entry_copy(v) for k, v in kwargs.items()}
     if selfobj is not None:
         env["self"] = selfobj
     names = [n for n in dir(cls) if n.startswith("ensures")]
